@@ -65,19 +65,27 @@ impl<T: Ord> UniqueSortedVec<T> {
                 other.0.extend(self.0);
                 other
             }
-            ([.., tail_x], [.., tail_y]) => {
-                let last = match tail_x.cmp(tail_y) {
-                    Ordering::Greater => self.0.pop().unwrap(), // move `tail_x` out
-                    Ordering::Less => other.0.pop().unwrap(),   // move `tail_y` out
-                    Ordering::Equal => {
-                        other.0.pop().unwrap(); // move `tail_x` out
-                        self.0.pop().unwrap() // move `tail_y` out
-                    }
-                };
+            _ => {
+                // Merge both sorted sequences, in a loop rather than by recursion on the
+                // tails which would need a stack frame per element.
+                let mut merged = Vec::with_capacity(self.0.len() + other.0.len());
+                let mut xs = self.0.into_iter().peekable();
+                let mut ys = other.0.into_iter().peekable();
 
-                let mut new_head = self.union(other);
-                new_head.0.push(last);
-                new_head
+                while let (Some(x), Some(y)) = (xs.peek(), ys.peek()) {
+                    match x.cmp(y) {
+                        Ordering::Less => merged.extend(xs.next()),
+                        Ordering::Greater => merged.extend(ys.next()),
+                        Ordering::Equal => {
+                            ys.next();
+                            merged.extend(xs.next());
+                        }
+                    }
+                }
+
+                merged.extend(xs);
+                merged.extend(ys);
+                Self(merged)
             }
         }
     }
